@@ -226,7 +226,11 @@ func (e *Engine) LoadContracts(specDir string) error {
 	for key, c := range e.cs.Funcs {
 		if !c.Extern {
 			if _, ok := e.funcsByKey[key]; !ok {
-				return fmt.Errorf("%s: contract for unknown function %s", c.File, key)
+				// the function was renamed or removed: its contract cannot be checked (engine error, "needs
+				// contract"); the other contracts are still checked, so a change that broke a clause elsewhere is
+				// still reported
+				e.errorf("%s: contract for unknown function %s (renamed or removed: its clauses are not checked)", c.File, shortKey(key))
+				delete(e.cs.Funcs, key)
 			}
 		}
 	}
